@@ -30,38 +30,42 @@ package spg
 // ---------------------------------------------------------------- token.go
 
 //@ func Tokenize
+//@   uses PSUM-mono
+//@   ensures [C11] ok0:           len(ti) > 0 && ti[0] == 0 ==> err == nil
+//@   ensures [C11] ok12:          len(ti) > 0 && (ti[0] == 1 || ti[0] == 2) && psum(arr(ti), off(ti), 1, 1, len(ti)-1) <= clen(pw) ==> err == nil
+//@   ensures [C11] ok3:           len(ti) > 0 && ti[0] == 3 && len(ti)%2 == 1 && psum(arr(ti), off(ti), 1, 2, (len(ti)-1)/2) <= clen(pw) ==> err == nil
 //@   ensures [C11,C12] entropy:   res.Entropy == entropy
 //@   ensures [C12] err-empty:     len(ti) == 0 ==> err != nil
 //@   ensures [C12] err-kind:      len(ti) > 0 && ti[0] > 3 ==> err != nil
 //@   ensures [C12] err-truncated: len(ti) > 0 && ti[0] == 3 && len(ti)%2 == 0 ==> err != nil
-//@   ensures [C12] err-short1:    len(ti) > 0 && (ti[0] == 1 || ti[0] == 2) && psum(arr(ti), off(ti)+1, 1, len(ti)-1) > clen(pw) ==> err != nil
-//@   ensures [C12] err-short3:    len(ti) > 0 && ti[0] == 3 && len(ti)%2 == 1 && psum(arr(ti), off(ti)+1, 2, (len(ti)-1)/2) > clen(pw) ==> err != nil
+//@   ensures [C12] err-short1:    len(ti) > 0 && (ti[0] == 1 || ti[0] == 2) && psum(arr(ti), off(ti), 1, 1, len(ti)-1) > clen(pw) ==> err != nil
+//@   ensures [C12] err-short3:    len(ti) > 0 && ti[0] == 3 && len(ti)%2 == 1 && psum(arr(ti), off(ti), 1, 2, (len(ti)-1)/2) > clen(pw) ==> err != nil
 //@   ensures [C11,C12] kind0:     err == nil && ti[0] == 0 ==> len(res.tokens) == clen(pw) &&
-//@        forall(int(j), 0 <= j && j < clen(pw) ==> res.tokens[j].value == at(pw, j) && res.tokens[j].tType == AtomType)
+//@        forall(int(j), trig(res.tokens[j]), 0 <= j && j < clen(pw) ==> res.tokens[j].value == at(pw, j) && res.tokens[j].tType == AtomType)
 //@   ensures [C11,C12] kind1:     err == nil && ti[0] == 1 ==> len(res.tokens) == len(ti)-1 &&
-//@        psum(arr(ti), off(ti)+1, 1, len(ti)-1) <= clen(pw) &&
-//@        forall(int(j), 0 <= j && j < len(ti)-1 ==> res.tokens[j].tType == AtomType &&
-//@               res.tokens[j].value == seg(pw, psum(arr(ti), off(ti)+1, 1, j), psum(arr(ti), off(ti)+1, 1, j+1)))
+//@        psum(arr(ti), off(ti), 1, 1, len(ti)-1) <= clen(pw) &&
+//@        forall(int(j), trig(res.tokens[j]), 0 <= j && j < len(ti)-1 ==> res.tokens[j].tType == AtomType &&
+//@               res.tokens[j].value == seg(pw, psum(arr(ti), off(ti), 1, 1, j), psum(arr(ti), off(ti), 1, 1, j+1)))
 //@   ensures [C11,C12] kind2:     err == nil && ti[0] == 2 ==> len(res.tokens) == len(ti)-1 &&
-//@        psum(arr(ti), off(ti)+1, 1, len(ti)-1) <= clen(pw) &&
-//@        forall(int(j), 0 <= j && j < len(ti)-1 ==> res.tokens[j].tType == ite(j%2 == 1, SeparatorType, AtomType) &&
-//@               res.tokens[j].value == seg(pw, psum(arr(ti), off(ti)+1, 1, j), psum(arr(ti), off(ti)+1, 1, j+1)))
+//@        psum(arr(ti), off(ti), 1, 1, len(ti)-1) <= clen(pw) &&
+//@        forall(int(j), trig(res.tokens[j]), 0 <= j && j < len(ti)-1 ==> res.tokens[j].tType == ite(j%2 == 1, SeparatorType, AtomType) &&
+//@               res.tokens[j].value == seg(pw, psum(arr(ti), off(ti), 1, 1, j), psum(arr(ti), off(ti), 1, 1, j+1)))
 //@   ensures [C11,C12] kind3:     err == nil && ti[0] == 3 ==> len(ti)%2 == 1 && len(res.tokens) == (len(ti)-1)/2 &&
-//@        psum(arr(ti), off(ti)+1, 2, (len(ti)-1)/2) <= clen(pw) &&
-//@        forall(int(j), 0 <= j && j < (len(ti)-1)/2 ==> res.tokens[j].tType == ti[2+2*j] &&
-//@               res.tokens[j].value == seg(pw, psum(arr(ti), off(ti)+1, 2, j), psum(arr(ti), off(ti)+1, 2, j+1)))
+//@        psum(arr(ti), off(ti), 1, 2, (len(ti)-1)/2) <= clen(pw) &&
+//@        forall(int(j), trig(res.tokens[j]), 0 <= j && j < (len(ti)-1)/2 ==> res.tokens[j].tType == ti[2+2*j] &&
+//@               res.tokens[j].value == seg(pw, psum(arr(ti), off(ti), 1, 2, j), psum(arr(ti), off(ti), 1, 2, j+1)))
 //@   ensures [C12] kinds:         err == nil ==> len(ti) > 0 && ti[0] <= 3
-//@   loop 1 invariant [C12] chars: len(tokens) == it && forall(int(j), 0 <= j && j < it ==> tokens[j].value == at(pw, j) && tokens[j].tType == AtomType)
-//@   loop 2 invariant [C12] pos:   0 <= prevPos && prevPos <= clen(pw) && prevPos == psum(arr(ti), off(ti)+1, 1, i)
-//@   loop 2 invariant [C12] done:  forall(int(j), 0 <= j && j < i ==> tokens[j].tType == AtomType &&
-//@               tokens[j].value == seg(pw, psum(arr(ti), off(ti)+1, 1, j), psum(arr(ti), off(ti)+1, 1, j+1)))
-//@   loop 3 invariant [C12] pos:   0 <= prevPos && prevPos <= clen(pw) && prevPos == psum(arr(ti), off(ti)+1, 1, i)
-//@   loop 3 invariant [C12] done:  forall(int(j), 0 <= j && j < i ==> tokens[j].tType == ite(j%2 == 1, SeparatorType, AtomType) &&
-//@               tokens[j].value == seg(pw, psum(arr(ti), off(ti)+1, 1, j), psum(arr(ti), off(ti)+1, 1, j+1)))
+//@   loop 1 invariant [C12] chars: len(tokens) == it && forall(int(j), trig(tokens[j]), 0 <= j && j < it ==> tokens[j].value == at(pw, j) && tokens[j].tType == AtomType)
+//@   loop 2 invariant [C12] pos:   0 <= prevPos && prevPos <= clen(pw) && prevPos == psum(arr(ti), off(ti), 1, 1, i)
+//@   loop 2 invariant [C12] done:  forall(int(j), trig(tokens[j]), 0 <= j && j < i ==> tokens[j].tType == AtomType &&
+//@               tokens[j].value == seg(pw, psum(arr(ti), off(ti), 1, 1, j), psum(arr(ti), off(ti), 1, 1, j+1)))
+//@   loop 3 invariant [C12] pos:   0 <= prevPos && prevPos <= clen(pw) && prevPos == psum(arr(ti), off(ti), 1, 1, i)
+//@   loop 3 invariant [C12] done:  forall(int(j), trig(tokens[j]), 0 <= j && j < i ==> tokens[j].tType == ite(j%2 == 1, SeparatorType, AtomType) &&
+//@               tokens[j].value == seg(pw, psum(arr(ti), off(ti), 1, 1, j), psum(arr(ti), off(ti), 1, 1, j+1)))
 //@   loop 4 invariant [C12] idx:   i >= 1 && i%2 == 1 && i <= len(ti)
-//@   loop 4 invariant [C12] pos:   0 <= prevPos && prevPos <= clen(pw) && prevPos == psum(arr(ti), off(ti)+1, 2, (i-1)/2)
-//@   loop 4 invariant [C12] done:  forall(int(j), 0 <= j && j < (i-1)/2 ==> tokens[j].tType == ti[2+2*j] &&
-//@               tokens[j].value == seg(pw, psum(arr(ti), off(ti)+1, 2, j), psum(arr(ti), off(ti)+1, 2, j+1)))
+//@   loop 4 invariant [C12] pos:   0 <= prevPos && prevPos <= clen(pw) && prevPos == psum(arr(ti), off(ti), 1, 2, (i-1)/2)
+//@   loop 4 invariant [C12] done:  forall(int(j), trig(tokens[j]), 0 <= j && j < (i-1)/2 ==> tokens[j].tType == ti[2+2*j] &&
+//@               tokens[j].value == seg(pw, psum(arr(ti), off(ti), 1, 2, j), psum(arr(ti), off(ti), 1, 2, j+1)))
 
 //@ func (Tokens).maxTokenLen
 //@   ensures [C11] nonneg:   res >= 0
@@ -91,19 +95,22 @@ package spg
 //@   loop 1 invariant [C11] sofar: forall(int(j), 0 <= j && j < it ==> ts[j].tType == ite(j%2 == 0, AtomType, SeparatorType))
 
 //@ func (Tokens).Kind
+//@   uses KINDOF-def
 //@   ensures [C11] kind: res == kindOf(arr(ts), off(ts), len(ts))
 
 //@ func (Tokens).MakeIndices
 //@   ensures [C11] empty:   len(ts) == 0 ==> len(res) == 0 && err == nil
-//@   ensures [C11] err-iff: len(ts) > 0 ==> ((err != nil) == (kindOf(arr(ts), off(ts), len(ts)) != 0 &&
-//@                              exists(int(j), 0 <= j && j < len(ts) && clen(ts[j].value) > 255)))
+//@   ensures [C11] err-if:   len(ts) > 0 && err != nil ==> kindOf(arr(ts), off(ts), len(ts)) != 0 &&
+//@                              exists(int(j), 0 <= j && j < len(ts) && clen(ts[j].value) > 255)
+//@   ensures [C11] err-when: len(ts) > 0 && kindOf(arr(ts), off(ts), len(ts)) != 0 &&
+//@                              exists(int(j), 0 <= j && j < len(ts) && clen(ts[j].value) > 255) ==> err != nil
 //@   ensures [C11] kind:    err == nil && len(ts) > 0 ==> len(res) >= 1 && res[0] == kindOf(arr(ts), off(ts), len(ts))
 //@   ensures [C11] size:    err == nil && len(ts) > 0 ==> len(res) == ite(kindOf(arr(ts), off(ts), len(ts)) == 0, 1,
 //@                              ite(kindOf(arr(ts), off(ts), len(ts)) == 3, 2*len(ts)+1, len(ts)+1))
 //@   ensures [C11] lengths: err == nil && len(ts) > 0 && (kindOf(arr(ts), off(ts), len(ts)) == 1 || kindOf(arr(ts), off(ts), len(ts)) == 2) ==>
-//@                              forall(int(j), 0 <= j && j < len(ts) ==> res[1+j] == clen(ts[j].value))
+//@                              forall(int(j), trig(ts[j]), 0 <= j && j < len(ts) ==> res[1+j] == clen(ts[j].value))
 //@   ensures [C11] pairs:   err == nil && len(ts) > 0 && kindOf(arr(ts), off(ts), len(ts)) == 3 ==>
-//@                              forall(int(j), 0 <= j && j < len(ts) ==> res[1+2*j] == clen(ts[j].value) && res[2+2*j] == ts[j].tType)
+//@                              forall(int(j), trig(ts[j]), 0 <= j && j < len(ts) ==> res[1+2*j] == clen(ts[j].value) && res[2+2*j] == ts[j].tType)
 //@   ensures [C11] fresh:   err == nil && len(ts) > 0 ==> fresh(res)
 //@   loop 1 invariant [C11] filled: forall(int(j), 0 <= j && j < i ==> ti[j] == clen(ts[j].value) && clen(ts[j].value) <= 255)
 //@   loop 1 invariant [C11] head:   first[0] == kind
@@ -119,5 +126,87 @@ package spg
 // ---------------------------------------------------------------- password.go
 
 //@ func (Password).String
+//@   uses CSUM-mono, CSUM-nonneg
 //@   ensures [C05,C11] cat: res == catTok(arr(p.tokens), off(p.tokens), len(p.tokens))
+//@   ensures [C11] segs: allutf8(arr(p.tokens), off(p.tokens), len(p.tokens)) ==> utf8ok(res) &&
+//@        clen(res) == csum(arr(p.tokens), off(p.tokens), len(p.tokens)) &&
+//@        forall(int(j), trig(p.tokens[j]), 0 <= j && j < len(p.tokens) ==>
+//@               seg(res, csum(arr(p.tokens), off(p.tokens), j), csum(arr(p.tokens), off(p.tokens), j+1)) == p.tokens[j].value)
 //@   loop 1 invariant [C05] cat: pw == catTok(arr(p.tokens), off(p.tokens), it)
+//@   loop 1 invariant [C11] segs: allutf8(arr(p.tokens), off(p.tokens), len(p.tokens)) ==> utf8ok(pw) &&
+//@        clen(pw) == csum(arr(p.tokens), off(p.tokens), it) &&
+//@        forall(int(j), trig(p.tokens[j]), 0 <= j && j < it ==>
+//@               seg(pw, csum(arr(p.tokens), off(p.tokens), j), csum(arr(p.tokens), off(p.tokens), j+1)) == p.tokens[j].value)
+
+//@ func verifLemmaSums1
+//@   requires [C11] lens: forall(int(k), trig(ts[k]), trig(ix[1+k]), 0 <= k && k < len(ts) ==> ix[1+k] == clen(ts[k].value))
+//@   ensures  [C11] sums: forall(int(j), 0 <= j && j <= len(ts) ==> psum(arr(ix), off(ix), 1, 1, j) == csum(arr(ts), off(ts), j))
+//@   loop 1 invariant [C11] sums: psum(arr(ix), off(ix), 1, 1, it) == csum(arr(ts), off(ts), it) &&
+//@                              forall(int(j), 0 <= j && j <= it ==> psum(arr(ix), off(ix), 1, 1, j) == csum(arr(ts), off(ts), j))
+
+//@ func verifLemmaSums2
+//@   requires [C11] lens: forall(int(k), trig(ts[k]), trig(ix[1+2*k]), 0 <= k && k < len(ts) ==> ix[1+2*k] == clen(ts[k].value))
+//@   ensures  [C11] sums: forall(int(j), 0 <= j && j <= len(ts) ==> psum(arr(ix), off(ix), 1, 2, j) == csum(arr(ts), off(ts), j))
+//@   loop 1 invariant [C11] sums: psum(arr(ix), off(ix), 1, 2, it) == csum(arr(ts), off(ts), it) &&
+//@                              forall(int(j), 0 <= j && j <= it ==> psum(arr(ix), off(ix), 1, 2, j) == csum(arr(ts), off(ts), j))
+
+//@ func verifLemmaOnes
+//@   requires [C11] ones: allone(arr(ts), off(ts), len(ts))
+//@   ensures  [C11] sums: forall(int(j), 0 <= j && j <= len(ts) ==> csum(arr(ts), off(ts), j) == j)
+//@   loop 1 invariant [C11] sums: csum(arr(ts), off(ts), it) == it &&
+//@                              forall(int(j), 0 <= j && j <= it ==> csum(arr(ts), off(ts), j) == j)
+
+//@ func verifRT0
+//@   requires [C11] nonempty: len(ts) > 0
+//@   requires [C11] sizes:    forall(int(j), trig(ts[j]), 0 <= j && j < len(ts) ==> 1 <= clen(ts[j].value) && clen(ts[j].value) <= 255 && utf8ok(ts[j].value))
+//@   requires [C11] utf8:     allutf8(arr(ts), off(ts), len(ts))
+//@   requires [C11] index:    len(ix) >= 1 && ix[0] == 0
+//@   requires [C11] chars:    allatoms(arr(ts), off(ts), len(ts)) && allone(arr(ts), off(ts), len(ts))
+//@   ensures [C11] ok:        err == nil
+//@   ensures [C11] entropy:   res.Entropy == entropy
+//@   ensures [C11] same:      len(res.tokens) == len(ts) &&
+//@        forall(int(j), trig(res.tokens[j]), 0 <= j && j < len(ts) ==> res.tokens[j].value == ts[j].value && res.tokens[j].tType == ts[j].tType)
+
+//@ func verifRT1
+//@   requires [C11] nonempty: len(ts) > 0
+//@   requires [C11] sizes:    forall(int(j), trig(ts[j]), 0 <= j && j < len(ts) ==> 1 <= clen(ts[j].value) && clen(ts[j].value) <= 255 && utf8ok(ts[j].value))
+//@   requires [C11] utf8:     allutf8(arr(ts), off(ts), len(ts))
+//@   requires [C11] index:    len(ix) == len(ts)+1 && ix[0] == 1
+//@   requires [C11] lens:     forall(int(k), trig(ts[k]), trig(ix[1+k]), 0 <= k && k < len(ts) ==> ix[1+k] == clen(ts[k].value))
+//@   requires [C11] atoms:    allatoms(arr(ts), off(ts), len(ts))
+//@   ensures [C11] ok:        err == nil
+//@   ensures [C11] entropy:   res.Entropy == entropy
+//@   ensures [C11] same:      len(res.tokens) == len(ts) &&
+//@        forall(int(j), trig(res.tokens[j]), 0 <= j && j < len(ts) ==> res.tokens[j].value == ts[j].value && res.tokens[j].tType == ts[j].tType)
+
+//@ func verifRT2
+//@   requires [C11] nonempty: len(ts) > 0
+//@   requires [C11] sizes:    forall(int(j), trig(ts[j]), 0 <= j && j < len(ts) ==> 1 <= clen(ts[j].value) && clen(ts[j].value) <= 255 && utf8ok(ts[j].value))
+//@   requires [C11] utf8:     allutf8(arr(ts), off(ts), len(ts))
+//@   requires [C11] index:    len(ix) == len(ts)+1 && ix[0] == 2
+//@   requires [C11] lens:     forall(int(k), trig(ts[k]), trig(ix[1+k]), 0 <= k && k < len(ts) ==> ix[1+k] == clen(ts[k].value))
+//@   requires [C11] alt:      alternating(arr(ts), off(ts), len(ts))
+//@   ensures [C11] ok:        err == nil
+//@   ensures [C11] entropy:   res.Entropy == entropy
+//@   ensures [C11] same:      len(res.tokens) == len(ts) &&
+//@        forall(int(j), trig(res.tokens[j]), 0 <= j && j < len(ts) ==> res.tokens[j].value == ts[j].value && res.tokens[j].tType == ts[j].tType)
+
+//@ func verifRT3
+//@   requires [C11] nonempty: len(ts) > 0
+//@   requires [C11] sizes:    forall(int(j), trig(ts[j]), 0 <= j && j < len(ts) ==> 1 <= clen(ts[j].value) && clen(ts[j].value) <= 255 && utf8ok(ts[j].value))
+//@   requires [C11] utf8:     allutf8(arr(ts), off(ts), len(ts))
+//@   requires [C11] index:    len(ix) == 2*len(ts)+1 && ix[0] == 3
+//@   requires [C11] lens:     forall(int(k), trig(ts[k]), trig(ix[1+2*k]), 0 <= k && k < len(ts) ==> ix[1+2*k] == clen(ts[k].value))
+//@   requires [C11] types:    forall(int(k), trig(ts[k]), trig(ix[2+2*k]), 0 <= k && k < len(ts) ==> ix[2+2*k] == ts[k].tType)
+//@   ensures [C11] ok:        err == nil
+//@   ensures [C11] entropy:   res.Entropy == entropy
+//@   ensures [C11] same:      len(res.tokens) == len(ts) &&
+//@        forall(int(j), trig(res.tokens[j]), 0 <= j && j < len(ts) ==> res.tokens[j].value == ts[j].value && res.tokens[j].tType == ts[j].tType)
+
+//@ func verifRoundTrip
+//@   requires [C11] nonempty: len(ts) > 0
+//@   requires [C11] sizes:    forall(int(j), trig(ts[j]), 0 <= j && j < len(ts) ==> 1 <= clen(ts[j].value) && clen(ts[j].value) <= 255 && utf8ok(ts[j].value))
+//@   ensures [C11] ok:        err == nil
+//@   ensures [C11] entropy:   res.Entropy == entropy
+//@   ensures [C11] same:      len(res.tokens) == len(ts) &&
+//@        forall(int(j), trig(res.tokens[j]), 0 <= j && j < len(ts) ==> res.tokens[j].value == ts[j].value && res.tokens[j].tType == ts[j].tType)
